@@ -251,7 +251,7 @@ func lookup(wire []byte, tag string) (v []byte, err error, pan string) {
 
 func main() {
 	c := vk.Init("C18")
-	c.Rule("targeted decoys: for a tag t in each role {plain field, group count, first field of a group, inner entry field, MsgType, MsgSeqNum, CheckSum, BodyLength} x placement {text 't=' inside another field's value before / after / both sides of the genuine field, extra fields whose tag has t as proper decimal suffix or prefix before / after, both} x genuine field or group present / absent: the message is built by the harness's own encoder (correct framing), then parsed (strict and non-strict) into the library template and every tag of the message plus t is looked up with ValueByTag; expected results come from the construction. Plus self-referring messages: the exact bytes of the message's own closing field ('10=ccc' with ccc its own checksum, found by a fixed-point search) at the end or in the middle of an earlier value (top level or group entry), or ccc as the value of a field whose tag ends in the CheckSum tag's digits; such a message must be accepted and parsed as sent. Plus connection framing: messages whose values contain the text '10=' at 30 chosen offsets (incl. around multiples of 4096) and fields 110/210/1010 are streamed through a real Conn and must be delivered with the boundaries the reference splitter gives. Plus the session's own lookups: a logged-on session receives a Heartbeat (valid, or with a wrong checksum) in which text '34=' inside a value or a longer tag ending in 34 precedes the genuine MsgSeqNum; the recorded incoming number and the Reject's RefSeqNum must be the genuine one; and the handler's own lookup of MsgType: TestRequests whose MsgType field is not the third one and follows a value containing '35=', a tag ending in 35, or a value that is itself a message type are answered with their Heartbeat. distinct = hash(wire); non-trivial = all (every case carries a decoy)")
+	c.Rule("targeted decoys: for a tag t in each role {plain field, group count, first field of a group, inner entry field, MsgType, MsgSeqNum, CheckSum, BodyLength} x placement {text 't=' inside another field's value before / after / both sides of the genuine field, extra fields whose tag has t as proper decimal suffix or prefix before / after, both} x genuine field or group present / absent: the message is built by the harness's own encoder (correct framing), then parsed (strict and non-strict) into the library template and every tag of the message plus t is looked up with ValueByTag; expected results come from the construction. Plus self-referring messages: the exact bytes of the message's own closing field ('10=ccc' with ccc its own checksum, found by a fixed-point search) at the end or in the middle of an earlier value (top level or group entry), or ccc as the value of a field whose tag ends in the CheckSum tag's digits; such a message must be accepted and parsed as sent. Plus connection framing: messages whose values contain the text '10=' at 30 chosen offsets (incl. around multiples of 4096) and fields 110/210/1010 are streamed through a real Conn and must be delivered with the boundaries the reference splitter gives; and streams that pause for 1.3 s inside a field value, right before text that begins like the CheckSum field, are delivered whole. Plus the session's own lookups: a logged-on session receives a Heartbeat (valid, or with a wrong checksum) in which text '34=' inside a value or a longer tag ending in 34 precedes the genuine MsgSeqNum; the recorded incoming number and the Reject's RefSeqNum must be the genuine one; and the handler's own lookup of MsgType: TestRequests whose MsgType field is not the third one and follows a value containing '35=', a tag ending in 35, or a value that is itself a message type are answered with their Heartbeat. distinct = hash(wire); non-trivial = all (every case carries a decoy)")
 	c.Assume("messages are well-formed: BeginString first, correct BodyLength/CheckSum, one template position per tag, foreign (related-tag) fields only at top level")
 	reps := c.Pick(60, 5000)
 	type combo struct {
@@ -353,6 +353,7 @@ func main() {
 	})
 	selfReferring(c)
 	connFraming(c)
+	pausedStreams(c)
 	sessionLookups(c)
 	dispatchLookups(c)
 	c.Finish()
